@@ -45,7 +45,7 @@ def function(draw, idx):
     f["catch"] = draw(st.booleans())
     f["recurse"] = draw(st.booleans()) and f["flavour"] == "plain" and kind in ("func", "method", "classmethod", "staticmethod")
     f["exit"] = draw(st.sampled_from(EXITS))
-    f["yields"] = draw(st.lists(st.sampled_from(["@p", "1", "'y'", "None", "[1.5]", "{'a': 1}", "@cond", "@cond"]), max_size=4)) if f["flavour"] == "gen" else []
+    f["yields"] = draw(st.lists(st.sampled_from(["@p", "1", "'y'", "None", "[1.5]", "{'a': 1}", "@cond", "@cond", "@from", "@from"]), max_size=4)) if f["flavour"] == "gen" else []
     f["awaits"] = draw(st.integers(0, 3)) if f["flavour"] == "coro" else 0
     return f
 
@@ -222,7 +222,11 @@ def render(prog):
             for y in f["yields"]:
                 # "@cond": the yielded type depends on the argument's value, not on its type
                 yv = (first or "0") if y == "@p" else (f"(1 if {first} else 's')" if first else "1.5") if y == "@cond" else y
-                B.append(f"{ind}yield {yv}")
+                if y == "@from":
+                    # delegation: the values relayed by `yield from` are yielded by this generator
+                    B.append(f"{ind}_n = yield from S.relay((b'relayed', 2.5, {first or 0}))")
+                else:
+                    B.append(f"{ind}yield {yv}")
                 if f["rebind"] == "rebind" and first:
                     B.append(f"{ind}{first} = ('rebound', {first})")
             if not f["yields"]:
